@@ -13,7 +13,7 @@
    check); encoding/json and encoding/csv are modelled on the alphabet the analysis produces. *)
 From Coq Require Import List ZArith Bool String Permutation.
 From NP Require Import IntervalSet ConnSet ConnSetProofs World Build Connlist Diff Format SortGeneric FormatProofs DotProofs DiffDot DiffDotProofs XFormat XFormatProofs StrInj ConnInj RowInj
-     Eval EvalProofs PartitionTiles ModelPrintable DiffInj DiffTxtInj XDot XDotProofs.
+     Eval EvalProofs PartitionTiles ModelPrintable DiffInj DiffTxtInj DiffCsvInj DotInj XDot XDotProofs.
 Import ListNotations.
 
 Theorem C09_rows_are_exactly_the_entries es : Permutation (rowsort (map row_of es)) (map row_of es).
@@ -150,6 +150,29 @@ Theorem C09_diff_txt_determines_the_diff d d' :
   Permutation (filter changedb d) (filter changedb d').
 Proof. exact (diff_txt_inj d d'). Qed.
 Print Assumptions C09_diff_txt_determines_the_diff.
+
+(* ... and the csv output (fields joined with ';', sorted, split again and quoted by encoding/csv); the peer strings hold no ';' *)
+Theorem C09_diff_csv_determines_the_diff d d' :
+  Forall dentry_csv_ok d -> Forall dentry_csv_ok d' -> diff_csv d = diff_csv d' ->
+  Permutation (filter changedb d) (filter changedb d').
+Proof. exact (diff_csv_inj d d'). Qed.
+Print Assumptions C09_diff_csv_determines_the_diff.
+
+Theorem C09_diff_csv_printable_checker_sound d : forallb dentry_csv_printableb d = true -> Forall dentry_csv_ok d.
+Proof. exact (dentries_csv_printable d). Qed.
+Print Assumptions C09_diff_csv_printable_checker_sound.
+
+(* ... and the dot output: an edge line is the only kind of line made of a quoted string followed by " -> ", so the
+   edges - hence the entries - can be read off the graph whatever peers list it was drawn with *)
+Theorem C09_dot_determines_the_report es es' ps ps' :
+  Forall entry_ok es -> Forall entry_ok es' -> Forall dpeer_ok ps -> Forall dpeer_ok ps' ->
+  list_dot es ps = list_dot es' ps' -> Permutation es es'.
+Proof. exact (list_dot_inj es es' ps ps'). Qed.
+Print Assumptions C09_dot_determines_the_report.
+
+Theorem C09_dot_printable_checker_sound ps : forallb dpeer_printableb ps = true -> Forall dpeer_ok ps.
+Proof. exact (dpeers_printable ps). Qed.
+Print Assumptions C09_dot_printable_checker_sound.
 
 Theorem C09_diff_row_determines_the_entry e e' : dentry_ok e -> dentry_ok e' -> drow_of e = drow_of e' -> e = e'.
 Proof. exact (drow_of_inj e e'). Qed.
